@@ -1,7 +1,7 @@
 """C13 — hash256 is a structural fingerprint computed as real SHA-256 (DESIGN.md §5 C13)."""
 import vcheck, os
 
-MODULES = ["BeffVerif.Props.C13", "BeffVerif.Props.C13Inj", "BeffVerif.Props.C13Tree", "BeffVerif.Props.C13Rec", "BeffVerif.Props.C13Names"]
+MODULES = ["BeffVerif.Props.C13", "BeffVerif.Props.C13Inj", "BeffVerif.Props.C13Tree", "BeffVerif.Props.C13Rec", "BeffVerif.Props.C13Names", "BeffVerif.Props.C13Total"]
 AUDIT = "BeffVerif/Audit/C13.lean"
 
 def run(chk):
@@ -12,11 +12,12 @@ def run(chk):
     chk.trusted += [
         "C13: tools/translate/sha_consts.py (regex extraction of SHA256_K, h0..h7, tag bytes from hash.ts)",
         "C13: Model/Sha256.lean models hash.ts:76-234 by hand; JS numbers of the length computation are exact below 2^53 bits (stated, not modelled)",
-        "C13: strings are sequences of Unicode scalars (lone surrogates, which TextEncoder replaces by U+FFFD, are outside the model)",
+        "C13: strings are sequences of Unicode scalars (unpaired surrogates are outside the model; since the repair D109 the real writer encodes them injectively, probed on the JavaScript side of the pair pass)",
         "C13: Model/Hash256.lean models hash256() of every *Runtype class and ParserFromRuntype.hash256 by hand; strings compare by code point (equal to the UTF-16 code-unit order of Array.prototype.sort below U+D800)",
         "C13: collision resistance of SHA-256 is a cryptographic assumption, never a Lean axiom",
     ]
     chk.open_obligations += [
+        "TERMINATION is a theorem (Props/C13Total: h256_total / hash256Toks_total — in an environment in which every name resolves, constants are Const values and alias chains end, the encoder answers for every runtype, active set and offset at fuel K·(D+1)+w: K names not yet under expansion, D / w nesting depths); an alias CYCLE has no rank and the real hash256 does not return on it (D4 family)",
         "injectivity of the Runtype-level token stream is a theorem for every tree, with named references and recursion (Props/C13Tree for closed trees, Props/C13Rec: same_stream_same_behaviour_rec, different_behaviour_different_stream_rec / _bytes_rec), under three stated hypotheses: GoodR / GoodEnv (what a JavaScript object can be: distinct property and mapping keys, constants are constants), SourceDeterminesMatch (a regular expression's source decides what it matches: a fact about the regex engine, not modelled), Tok.Valid (payloads below 2^32 bytes). The converse half of C13 is a theorem rewrite by rewrite (Props/C13Names): renaming the named types injectively (h256_rename, hash256Toks_rename: names never reach the stream, recursive types included), descriptions (h256_described), alias hops (h256_alias_hop), property order and discriminator-case order (object_property_order, disc_mapping_order; hash32_property_order for the 32-bit hash). Not a theorem: introducing / removing a name for an arbitrary sub-term (alias boundary in general: a new binder may move where a cycle is cut — the class of D41 / D78), decided by c13.same on the real classes",
     ]
     quick = chk.tier == "quick"
